@@ -37,7 +37,8 @@ RULE = ("const/poly/random constructors: Hypothesis draws shapes (d 2..5(6), mod
         "both signed spellings, one shape / index / value pool with prefix, suffix and bumped variants), checks every call with "
         "the single-call oracle (= the result of the call in isolation), overwrites results already handed out (NaN / scaling), "
         "and repeats every int-seeded random call at the end (bit-identical cores). Non-trivial history = two calls that share a "
-        "position on different levels or share a shape.")
+        "position on different levels or share a shape."
+        " Positions of vector_delta / matrix_delta are also given as NumPy integer scalars (int64 / int32 / intp) and 0-d integer arrays, ONE such object for row and column and for two consecutive calls: same cores as for the Python int, object untouched.")
 TOLERANCES = ("const/delta value: |got - v| <= (|ln|v|| + 4d + 4)*eps*|v| (the rounded exponent 1/d costs |ln|v||*eps/2, pow and the "
               "d-1 products the rest); zeros are exact zeros. poly: (32*(d+sum r+max n) + 8*(power+2))*eps*|scale|*sum|(i+shift)^power|. "
               "auditing generator: cores bit-for-bit equal to the Fortran-ordered cut of the returned flat vector. rand_stab: "
@@ -293,7 +294,19 @@ def prop_vector_delta(case, ctx):
         one_vector(ctx, q, i, case["v"], case["v_default"])
     for i in out_of_range(q):
         ctx.raises(ValueError, teneva.vector_delta, q, i, v)
-    ctx.inner(2 * m - 1 + len(out_of_range(q)))
+    # the position as a NumPy integer scalar or a 0-d integer array (an entry of an index array, np.argmax(...)), the very same object used
+    # for a second call: the same QTT-vector both times, the object untouched
+    for i in sorted({0, 1, m - 1, m // 2, -1, -m, (5 * q) % m}):
+        ref = ctx.lib(teneva.vector_delta, q, int(i), v)
+        for mk in (np.int64, np.int32, np.array, lambda x: np.array(x, dtype=np.int32), np.intp):
+            pos = mk(i)
+            for rep in range(2):
+                Y = ctx.lib(teneva.vector_delta, q, pos, v)
+                ctx.check(len(Y) == len(ref) and all(np.array_equal(a, b) and a.dtype == b.dtype for a, b in zip(Y, ref)),
+                          "vector_delta: the position given as a NumPy integer / 0-d array gives another QTT-vector than the Python int",
+                          q=q, i=int(i), spelled=type(pos).__name__, call=rep + 1)
+                ctx.check(int(pos) == i, "vector_delta changed the position object it was given", q=q, i=int(i), now=int(pos))
+    ctx.inner(2 * m - 1 + len(out_of_range(q)) + 7 * 5 * 2)
 
 
 def one_vector(ctx, q, i, v_arg, v_default=False):
@@ -342,6 +355,17 @@ def prop_matrix_delta(case, ctx):
     ctx.nontrivial(True)                          # all negative column positions are executed
     for j in range(-m, m):
         one_matrix(ctx, q, i, j, case["v"], case["v_default"])
+    # row and column given as ONE 0-d integer array object (a diagonal position taken from an index array), and as NumPy scalars
+    ref = ctx.lib(teneva.matrix_delta, q, i, i, v)
+    for mk in (np.array, np.int64, lambda x: np.array(x, dtype=np.int32)):
+        pos = mk(i)
+        for rep in range(2):
+            Y = ctx.lib(teneva.matrix_delta, q, pos, pos, v)
+            ctx.check(len(Y) == len(ref) and all(np.array_equal(a, b) and a.dtype == b.dtype for a, b in zip(Y, ref)),
+                      "matrix_delta: row and column given as one NumPy integer / 0-d array object give another QTT-matrix than Python ints",
+                      q=q, i=i, spelled=type(pos).__name__, call=rep + 1)
+            ctx.check(int(pos) == i, "matrix_delta changed the position object it was given", q=q, i=i, now=int(pos))
+    ctx.inner(6)
     bad = out_of_range(q)
     if i in (0, -1, m - 1, -m):
         for b in bad:
